@@ -1139,3 +1139,59 @@ harness!(delimited_bounded, 10, {
     reach!(r == Err(trailing));
     std::mem::forget(r);
 });
+
+//# harness many_ctx_bounded tier=quick label=bounded(iterations<=4) props=C20 fn=rusty_pc/src/many_ctx.rs::ManyCtxParser::parse
+harness!(many_ctx_bounded, 10, {
+    // repetition in which every element is parsed in the context of the previous one
+    let mut input = In::any();
+    input.cap = 5;
+    let p0 = input.pos;
+    let allow_none = vs::bool();
+    let mut p = rusty_pc::many_ctx::ManyCtxParser::new::<In>(Stub::new(1), rusty_pc::many::VecManyCombiner, |v: &u8| v.wrapping_add(1), allow_none);
+    let r: Result<Vec<u8>, E> = Parser::<In, u16>::parse(&mut p, &mut input);
+    common(&input, p0, &r);
+    let mut k = 0;
+    while k < 5 {
+        if k < input.n {
+            let c = input.log[k];
+            assert!(c.start == if k == 0 { p0 } else { input.log[k - 1].end });
+            if k == 0 {
+                assert!(c.ctx == 0, "the first element is parsed in the default context");
+            } else {
+                assert!(c.ctx == input.log[k - 1].val.wrapping_add(1), "each element is parsed in the context projected from the previous element");
+            }
+            if k + 1 < input.n {
+                assert!(c.out == OK, "repetition continues only after a success");
+            }
+        }
+        k += 1;
+    }
+    let last = input.log[input.n - 1];
+    assert!(last.out != OK, "repetition stops only at a failure: the run of successes is maximal");
+    if last.out == FATAL {
+        assert!(r == Err(E { fatal: true, tag: last.val }));
+    } else if input.n == 1 {
+        if allow_none {
+            assert!(r == Ok(Vec::new()) && input.pos == p0);
+        } else {
+            assert!(r == Err(E { fatal: false, tag: last.val }) && input.pos == p0);
+        }
+    } else {
+        match &r {
+            Ok(v) => {
+                assert!(v.len() == input.n - 1, "exactly the successes are returned");
+                let mut j = 0;
+                while j < 4 {
+                    if j < v.len() {
+                        assert!(v[j] == input.log[j].val);
+                    }
+                    j += 1;
+                }
+                assert!(input.pos == last.end);
+            }
+            Err(_) => assert!(false, "a soft failure after at least one success ends the run successfully"),
+        }
+    }
+    reach!(r.is_ok() && input.n == 3);
+    std::mem::forget(r);
+});
